@@ -426,6 +426,11 @@ func delimsTwiceFamily(r *Run) {
 	for si, seq := range seqs {
 		last := seq[len(seq)-1]
 		src := items(last)
+		if si%2 == 1 || si == 0 {
+			// a source that parses under EVERY delimiter set of the sequence (each spelling is a complete block or object,
+			// plain text under the others): an engine that remembers a successful parse must not reuse it across Delims
+			src = "a {{ x }} b << x >> c [[ x ]] d {% if x %}T{% endif %} e <% if x %>U<% endif %> f [% if x %]V[% endif %] g"
+		}
 		render := func(e *liquid.Engine) string {
 			return guard(func() string {
 				out, err := e.ParseAndRenderString(src, map[string]any{"x": 1})
@@ -436,8 +441,12 @@ func delimsTwiceFamily(r *Run) {
 			})
 		}
 		e1 := liquid.NewEngine()
+		render(e1) // the SAME source is rendered under every delimiter set the engine goes through: "the new delimiters
+		// apply to what is parsed afterwards", also to a source the engine has parsed before
 		for _, d := range seq {
 			e1.Delims(d[0], d[1], d[2], d[3])
+			render(e1)
+			render(e1)
 		}
 		e2 := liquid.NewEngine()
 		e2.Delims(last[0], last[1], last[2], last[3])
